@@ -80,7 +80,7 @@ CATALOGUE = dict(
         [[q(2), q(3), q(6)], [q(1), q(-1, 2), q(2)]],      # 8  two variables of size 3; |x| = 7
     ],
     FCat=[fv(2, t="int"), fv(-1, 2), fv(3), fv(-1), fv(1, 2)],
-    ACat=[[q(2), q(-1)], [q(1), q(-2), q(1, 2)], [q(3), q(1, 2)]],
+    ACat=[[q(2), q(-1)], [q(1), q(-2), q(1, 2)], [q(3), q(2), q(1, 2)], [q(2), q(1, 2)]],   # 3, 4: positive (bases of **)
     MCat=[mat([[1, 2], [0, -1]], "csr"), mat([[1, 0], [1, 1], [2, -1]], "csc"), mat([[1, 0, 2], [0, -1, 1]], "csc"),
           mat([[2, 0, 0], [1, 1, 0], [0, 3, -1]], "csr"), mat([[1, 1], [1, -1]], "csc")],
     SCat=[sl("slice", 0, 1, 1), sl("array", 1, 0), sl("int", 1), sl("slice", 0, 3, 2), sl("int", 2), sl("array", 2, 0, 1),
@@ -101,12 +101,12 @@ def plans(quick):
     if quick:
         ex = [cfg("A-alg", [1], M=[1], S=[1], bin={"add", "mul", "div", "pow"}, un=ALLUN, law={"mul"}),
               cfg("A-pow", [2], F=[1], M=[2], bin={"pow", "mul"}, un={"matmul"}),
-              cfg("B-alg", [3], F=[4], A=[2], M=[3], S=[5, 6], bin={"sub", "mul", "div", "pow"}, un=ALLUN, law={"mul"}),
+              cfg("B-alg", [3], F=[4], A=[3], M=[3], S=[5, 6], bin={"sub", "mul", "div", "pow"}, un=ALLUN, law={"mul"}),
               cfg("F-fun", [4, 5], F=[1], M=[5], Fn=allfn, bin={"mul"}, un={"fn", "matmul"}),
               cfg("M-max", [1], F=[1], A=[1], M=[1, 2], bin={"max"}, un={"matmul", "neg"})]
         return ex, []
     everyfn = range(1, len(CATALOGUE["FnCat"]) + 1)
-    A = cfg("A-alg", [1], F=[2], A=[1], M=[1, 2], S=[1, 2, 3], bin=ALLBIN, un=ALLUN, law={"mul"})
+    A = cfg("A-alg", [1], F=[2], A=[4], M=[1, 2], S=[1, 2, 3], bin=ALLBIN, un=ALLUN, law={"mul"})
     F2 = cfg("F-fun2", [6], F=[1, 2], M=[5], Fn=everyfn, bin={"mul", "pow"}, un={"fn", "matmul", "neg"})
     Mx = cfg("M-max", [1, 2], F=[1, 2], A=[1], M=[1, 2], S=[1, 2], Fn=[15, 16], bin={"max", "mul"}, un={"neg", "matmul", "slice", "fn"})
     ex = [A,
@@ -592,6 +592,8 @@ def run(ctx):
             seen.add((r["config"], bool(r["sym"])))
             ctx.sample(dict(config=r["config"], expr=show(CATALOGUE, r["t"]), point=CATALOGUE["Points"][r["pt"] - 1],
                             val=o["float"]["val"], jac=o["float"]["jac"], symbolic_entries=len(r["sym"])))
+    ctx.extra["depth1_forms_judged"] = sorted({shape_key(CATALOGUE, r["t"]) for r, st in zip(progs, status)
+                                               if st == "judged" and depth(r["t"]) == 1})
     ctx.programs = sum(e["judged"] for e in per.values())
     ctx.extra["per_configuration"] = per
     ctx.extra["skipped_outside_smooth_domain"] = skipped
